@@ -129,7 +129,7 @@ def obs_c03(case):
     if msg is None:
         return ev
     P = msg.payload or b""
-    ev["P"] = list(P)
+    ev["P"] = list(walk.canon_nans(lay, P) if len(P) == len(P0) else P)
     # hostile caller: overwrite in place every list the message exposes (omitted array attributes must not be shared between messages)
     for _k, _v in list(vars(msg).items()):
         if isinstance(_v, list):
